@@ -39,6 +39,7 @@ impl AdjacencyMatrix {
     @fn_start
         assert(u * self.order + v < self.order * self.order) by (nonlinear_arith)
             requires u < self.order, v < self.order;
+        assert(u * self.order == self.order * u) by (nonlinear_arith);   // the product may be written either way round
     @*/
 
     /*@fn impl=AdjacencyMatrix trait=Order name=order
